@@ -56,6 +56,17 @@ def alias_rules(F, R, d):
         key_ap = call_recv_path(b, gt, 1) or ()
         R.ob('C17.resolve', '%s|lookup-key-is-the-publish-alias' % d.name, 'topic_alias' in key_ap, 'lookup key path %s' % apath_str(key_ap))
         rr = discr_switch_after_call(b, gbi)
+        # `aliases.get(&alias).cloned().ok_or_else(..)?`: the Some/None test is applied to the value handed on by cloned()/copied()
+        hop = gbi
+        for _ in range(3):
+            if rr:
+                break
+            nxt_ = [xb for xb, xt in b.calls() if re.search(r'Option::<.*>::(cloned|copied|as_ref|as_deref)$', callee_name(xt) or '') and xt['args']
+                    and any(l[0] == 'call' and l[2] == hop for l in Origin(b).of_operand(xt['args'][0]))]
+            if not nxt_:
+                break
+            hop = nxt_[0]
+            rr = discr_switch_after_call(b, hop)
         ok_some = ok_none = False
         if rr:
             gsb, tg, oth = rr
@@ -65,8 +76,8 @@ def alias_rules(F, R, d):
             # Some: publish.topic assigned from the stored value before Publish::new
             for xb, xj, s in b.assigns():
                 if xb in some_reg and place_fields(s['lhs'])[-1:] == ['topic'] and new_bi in b.reachable_after(xb):
-                    og = Origin(b).of_operand(s['rv'].get('op')) if s['rv']['k'] == 'use' else set()
-                    if any(l[0] == 'call' and l[1].endswith('Clone>::clone') for l in og):
+                    og = Origin(b, transparent=re.compile(TRANSPARENT_CALLS.pattern[:-2] + r'|branch|ok_or|ok_or_else)$')).of_operand(s['rv'].get('op')) if s['rv']['k'] == 'use' else set()
+                    if any(l[0] == 'call' and (l[1].endswith('Clone>::clone') or l[1].endswith('::cloned')) for l in og):
                         ok_some = True
             viol = [bi for bi, t in b.calls_to(r'^error::ProtocolError::violation$') if bi in none_reg]
             tai = [bi for bi, j, s in agg_sites(b, r'DisconnectReasonCode$', 'TopicAliasInvalid') if bi in none_reg]
